@@ -5,6 +5,8 @@ import WhVerif.Lemmas.C02Example
 import WhVerif.Lemmas.C02PipelineExample
 import WhVerif.Lemmas.C02Raw
 import WhVerif.Lemmas.C02Bam
+import WhVerif.Lemmas.C02Stage
+import WhVerif.Lemmas.C02Align
 /-!
 # C02 — property theorems (composition over the solver model)
 
@@ -271,6 +273,327 @@ example : ∃ I, mkInst [100, 200, 300, 400] (selectReads exCands [0, 2, 3]) 1 [
   | some I =>
     exact ⟨I, rfl, (pipeline_truth_from_raw_reads exCands exTruth exSrcC ((rawErrFreeB_iff _ _ _).mp (by decide)) [0, 2, 3]
       (by decide) [100, 200, 300, 400] [] I h (by decide)).2.2.1⟩
+
+/-! ## Round 10: the seams closed on the model side — real selection model (C07) and allele detection (C06) composed in
+
+`Model/C02Stage.lean` composes `C06.readModel` (alignments → reads), `readset.sort()`, the `len(read) >= 2` filter and
+`C07.sampleStage` (the selection of /repo) on reads that carry their alleles, and hands the kept reads to `C01.mkInst`.
+`Spec/C02Align.lean` says what an error-free alignment of an SNV haplotype is. -/
+section stages
+open WhVerif.C02S WhVerif.C02A WhVerif.C06 WhVerif.C07
+
+/-- **pipeline_truth_with_read_selection** (closes `seam-select` on the model side).  The sample's sorted read set `rs`, its
+    candidates (`len(read) >= 2`) satisfying stage A's contract, and the REAL selection model (`C07.sampleStage` through `stageP`:
+    any cap — also 0 —, any preferred source ids, any tie choices of the queue): the reads handed on are unchanged candidates
+    (`selectReads` of the candidates at strictly increasing, duplicate-free indices), each a read of `rs` with ≥ 2 variants, and
+    the conclusion of `pipeline_truth_from_raw_reads` holds — there is no free selection left. -/
+theorem pipeline_truth_with_read_selection (rs : List ReadOut) (hapAt : Nat → Nat) (srcC : Nat → Bool)
+    (hA : RawErrFree ((candidatesP rs).map toRaw) hapAt srcC)
+    (cap : Nat) (prefIds choices : List Nat) (o : StageOut) (hB : stageP rs cap prefIds choices = .ok o)
+    (positions recomb : List Nat) (I : Inst)
+    (hC : mkInst positions (o.selected.map toRaw) 1 [] (hetGeno positions.length) recomb = some I)
+    (hpos : ∀ p ∈ positions, hapAt p ≤ 1) :
+    (∃ so, sampleStage (rs.map toSRead) cap prefIds choices = .ok so ∧ o.selIdx = so.selIdx ∧
+      so.cands = o.cands.map toSRead ∧ so.selected = o.selected.map toSRead) ∧
+    o.cands = candidatesP rs ∧ o.selIdx.Nodup ∧ o.selIdx.Pairwise (· ≤ ·) ∧
+    (∀ r ∈ o.selected, r ∈ rs ∧ 2 ≤ r.variants.length) ∧
+    o.selected.map toRaw = selectReads (o.cands.map toRaw) o.selIdx ∧
+    (let hap := fun c => hapAt (positions.getD c 0)
+     let src := fun k => srcC (o.selIdx.getD k 0)
+     ErrFree I hap src ∧ WF I ∧ dpCost I = some 0 ∧
+     ∀ (β : List Bool) (τ : List Nat), totalCost I β τ = dpCost I →
+       ∀ r0 r c, Connected I r0 r → covers I r c → c < I.ncols →
+         getAlleles I c (restrict β (I.activeAt c)) (τ.getD c 0) =
+           some [if β.getD r0 false = src r0 then (hap c, 1 - hap c) else (1 - hap c, hap c)]) := by
+  have sp := stageP_spec hB
+  have hraw : o.selected.map toRaw = selectReads ((candidatesP rs).map toRaw) o.selIdx := by
+    rw [sp.selected]; exact toRaw_select _ _ sp.bound
+  obtain ⟨so, hso, h1, h2, h3⟩ := sp.so
+  refine ⟨⟨so, hso, h1, by rw [sp.cands]; exact h2, h3⟩, sp.cands, sp.nodup, sp.sorted, ?_, by rw [sp.cands]; exact hraw, ?_⟩
+  · intro r hr
+    rw [sp.selected] at hr
+    exact (mem_candidatesP rs r).1 (selected_mem sp.bound r hr)
+  · rw [hraw] at hC
+    exact pipeline_truth_from_raw_reads _ hapAt srcC hA o.selIdx (by simpa using sp.bound) positions recomb I hC hpos
+
+/-- non-vacuity: the four candidates of `exCands` as pipeline reads plus a one-variant read; cap 1 keeps candidates 0 and 3, cap 2 keeps 0, 1, 3 (the column structure changes) -/
+def exReads : List ReadOut :=
+  [⟨"a", 0, 60, 100, "", -1, -1, [(100, 0, 30), (200, 1, 30)]⟩, ⟨"s", 0, 60, 150, "", -1, -1, [(200, 1, 30)]⟩,
+   ⟨"b", 0, 60, 200, "", -1, -1, [(200, 0, 20), (300, 0, 20)]⟩, ⟨"c", 0, 60, 200, "", -1, -1, [(200, 1, 10), (300, 1, 10)]⟩,
+   ⟨"d", 0, 60, 300, "", -1, -1, [(300, 0, 7), (400, 1, 7)]⟩]
+
+example : ((candidatesP exReads).map toRaw).map (·.variants) = exCands.map (·.variants) := by decide
+example : (match stageP exReads 15 [] [] with | .ok o => some (o.selIdx, o.selected.map (·.name)) | .error _ => none)
+    = some ([0, 1, 2, 3], ["a", "b", "c", "d"]) := by decide
+def exStageView (cap : Nat) : Option (List Nat × Bool) :=
+  match stageP exReads cap [] [] with
+  | .ok o => some (o.selIdx, (mkInst [100, 200, 300, 400] (o.selected.map toRaw) 1 [] (hetGeno 4) []).isSome)
+  | .error _ => none
+example : exStageView 1 = some ([0, 3], true) ∧ exStageView 2 = some ([0, 1, 3], true) := by decide
+
+/-- **errfree_alignments_give_rawerrfree** (stage A for SNV inputs, no-reference detector — `_detect_alleles` +
+    `_alignments_to_reads` + `_group_reads`/`create_read_from_group`, as-is or repaired: `cfg` arbitrary).  SNV-only variant list
+    (single different REF/ALT bases, strictly increasing positions), a biallelic truth, and every alignment that passes the
+    filter an error-free alignment (M/=/X blocks carry the haplotype's bases; clips, skips, any other operator allowed) of the
+    haplotype of its template: `ReadSetReader.read` raises nothing that is not raised by the stream itself and every read it
+    returns satisfies stage A's contract `RawErrFree` — and so do the sorted read set and its candidates, whatever the
+    hash order of `ReadSet::sort`. -/
+theorem errfree_alignments_give_rawerrfree (cfg : ReadCfg) (sources : List Source) (sample : Option String) (R : Seq)
+    (vs : List Variant) (hapAt : Nat → Nat) (hsrc : Nat × String → Bool) (hin : SnvInput vs) (h01 : ∀ p, hapAt p ≤ 1)
+    (hal : AlnsErrFree cfg sources sample R vs hapAt hsrc) (reads : List ReadOut)
+    (h : readModel cfg sources sample none vs none = .ok reads) :
+    RawErrFree (reads.map toRaw) hapAt (srcOf hsrc reads) ∧
+    ∀ rank, RawErrFree ((candidatesP (sortReads rank reads)).map toRaw) hapAt (srcOf hsrc (candidatesP (sortReads rank reads))) := by
+  have hall := readModel_errfree cfg sources sample R vs hapAt hsrc hin (fun v _ => h01 v.pos) hal reads h
+  refine ⟨rawErrFree_of_mem hapAt reads (fun r => hsrc (r.sourceId, r.name)) hall, fun rank => ?_⟩
+  apply rawErrFree_of_mem hapAt _ (fun r => hsrc (r.sourceId, r.name))
+  intro r hr
+  exact hall r ((mem_sortReads rank r reads).1 ((mem_candidatesP _ r).1 hr).1)
+
+/-- **pipeline_truth_from_alignments** (alignment-level hypothesis → truth up to one swap per component).  SNV input, biallelic
+    truth, every alignment passing the filter an error-free alignment of its template's haplotype; the composed stage model
+    (`samplePipeline`: C06 reader without reference → `ReadSet::sort` with ANY hash order → `len >= 2` filter → C07 selection with
+    ANY cap / preferred ids / tie choices → `accessible_positions`) returns the solver input `out`; `PedigreeDPTable`'s conversion
+    succeeds on it: the instance is `ErrFree` and `WF`, the solver reports cost 0 and every witness achieving it carries, on every
+    read-connected component, exactly the true alleles up to one swap. -/
+theorem pipeline_truth_from_alignments (cfg : ReadCfg) (sources : List Source) (sample : Option String) (R : Seq)
+    (vs : List Variant) (hapAt : Nat → Nat) (hsrc : Nat × String → Bool) (hin : SnvInput vs) (h01 : ∀ p, hapAt p ≤ 1)
+    (hal : AlnsErrFree cfg sources sample R vs hapAt hsrc)
+    (rank : ReadOut → Nat) (cap : Nat) (prefIds choices : List Nat) (out : PipeOut)
+    (hP : samplePipeline cfg sources sample vs none rank cap prefIds choices = .ok out)
+    (recomb : List Nat) (I : Inst)
+    (hC : mkInst out.positions out.raws 1 [] (hetGeno out.positions.length) recomb = some I) :
+    let hap := fun c => hapAt (out.positions.getD c 0)
+    let src := srcOf hsrc out.stage.selected
+    (∀ r ∈ out.stage.selected, r ∈ out.reads ∧ 2 ≤ r.variants.length) ∧
+    ErrFree I hap src ∧ WF I ∧ dpCost I = some 0 ∧
+    ∀ (β : List Bool) (τ : List Nat), totalCost I β τ = dpCost I →
+      ∀ r0 r c, Connected I r0 r → covers I r c → c < I.ncols →
+        getAlleles I c (restrict β (I.activeAt c)) (τ.getD c 0) =
+          some [if β.getD r0 false = src r0 then (hap c, 1 - hap c) else (1 - hap c, hap c)] := by
+  intro hap src
+  unfold samplePipeline at hP
+  split at hP
+  · cases hP
+  · rename_i rs hrs
+    split at hP
+    · cases hP
+    · rename_i o ho
+      cases hP
+      simp only at hC
+      have hall : ∀ r ∈ rs, RawReadOk hapAt (hsrc (r.sourceId, r.name)) (toRaw r) := by
+        unfold readSorted at hrs
+        split at hrs
+        · cases hrs; intro r hr; cases hr
+        · cases hrs
+        · rename_i reads hreads
+          cases hrs
+          intro r hr
+          exact readModel_errfree cfg sources sample R vs hapAt hsrc hin (fun v _ => h01 v.pos) hal reads hreads r
+            ((mem_sortReads rank r reads).1 hr)
+      have sp := stageP_spec ho
+      have hsel : ∀ r ∈ o.selected, r ∈ rs ∧ 2 ≤ r.variants.length := by
+        intro r hr
+        rw [sp.selected] at hr
+        exact (mem_candidatesP rs r).1 (selected_mem sp.bound r hr)
+      have hraw : RawErrFree (o.selected.map toRaw) hapAt (srcOf hsrc o.selected) :=
+        rawErrFree_of_mem hapAt o.selected (fun r => hsrc (r.sourceId, r.name)) (fun r hr => hall r (hsel r hr).1)
+      have hef : ErrFree I hap src := errfree_of_raw hC (fun p _ => h01 p) hraw
+      have hwf : WF I := mkInst_wf hC
+      exact ⟨hsel, hef, hwf, WhVerif.C02.errfree_dpCost_zero hef hwf,
+        fun β τ hw r0 r c hconn hcov hc => WhVerif.C02.pipeline_truth_solver hef hwf β τ hw r0 r c hconn hcov hc⟩
+
+/-- With a reference (`detect_alleles_by_alignment`, the path the CLI check runs) the per-read statement is NOT proved:
+    full statement = `errfree_alignments_give_rawerrfree` with `reference = some R`.  Proved part: ONE re-alignment call of an
+    error-free read on an SNV under the hypotheses of C06's `realign_snv_mnp_correct` (the M/=/X block around the variant reaches
+    the ±overhang window or the read ends there in clips) returns the carried allele WITH the quality 30 (> 0), i.e. an entry that
+    satisfies `RawReadOk`.  Missing: lifting over `_iterate_cigar`'s yields for all variants of a read (variant at the first base of
+    a block, windows reaching over an N or into the neighbouring SNV) and then the same chain as above. -/
+theorem errfree_alignments_give_rawerrfree_realign_partial (f14 : Bool) (R query : Seq) (pos : Nat) (r a : Char) (h : Nat) (hh : h < 2)
+    (A B : Cigar) (mop m start oh : Nat) (hm : isMatch mop = true) (hoh : 0 < oh) (hne : r ≠ a) (hsym : a ≠ '<')
+    (hR : slice R pos 1 = [r])
+    (hcov : start + refLen A ≤ pos ∧ pos + 1 ≤ start + refLen A + m) (hin : start + refLen A + m ≤ R.length)
+    (hleft : oh ≤ pos - (start + refLen A) ∨ A.all isClip = true)
+    (hright : oh ≤ start + refLen A + m - (pos + 1) ∨ B.all isClip = true)
+    (hq : slice query (qLen A) m = slice (WhVerif.Props.C06.hapSeq R pos 1 (if h = 0 then [r] else [a])) (start + refLen A) m) :
+    realignQ f14 none ⟨pos, [r], [[a]]⟩ none query (A ++ (mop, m) :: B) A.length (pos - (start + refLen A))
+        ((qLen A + (pos - (start + refLen A)) : Nat) : Int) R oh = .ok (some (h, 30)) := by
+  have hcorr := WhVerif.Props.C06.realign_snv_mnp_correct f14 R query pos [r] [a] h hh A B mop m start oh hm hoh rfl (by simp)
+    (by simpa using hne) (by simpa using hsym) hR hcov hin hleft hright hq
+  have key := WhVerif.Props.C06.realignQ_allele f14 none ⟨pos, [r], [[a]]⟩ none query (A ++ (mop, m) :: B) A.length
+    (pos - (start + refLen A)) ((qLen A + (pos - (start + refLen A)) : Nat) : Int) R oh
+  rw [show distOf none = (levFast : Seq → Seq → Nat) from rfl, WhVerif.Props.C06.realign_levFast, hcorr] at key
+  have hq30 : ∀ x, realignQ f14 none ⟨pos, [r], [[a]]⟩ none query (A ++ (mop, m) :: B) A.length (pos - (start + refLen A))
+      ((qLen A + (pos - (start + refLen A)) : Nat) : Int) R oh = .ok (some x) → x.2 = 30 := by
+    intro x hx
+    unfold realignQ at hx
+    split at hx
+    · cases hx
+    · split at hx
+      · cases hx
+      · dsimp only at hx
+        split at hx
+        · cases hx
+        · cases hx
+        · cases hx; rfl
+  cases hres : realignQ f14 none ⟨pos, [r], [[a]]⟩ none query (A ++ (mop, m) :: B) A.length (pos - (start + refLen A))
+      ((qLen A + (pos - (start + refLen A)) : Nat) : Int) R oh with
+  | error e => rw [hres] at key; cases key
+  | ok o =>
+    rw [hres] at key
+    cases o with
+    | none => cases key
+    | some x =>
+      have h2 := hq30 x hres
+      obtain ⟨x1, x2⟩ := x
+      simp only [Except.map, Option.map_some, Except.ok.injEq, Option.some.injEq] at key
+      simp only at h2
+      rw [key, h2]
+
+/-! ### non-vacuity of the alignment-level theorems: reference `GGGAGGTGGG`, SNVs `A>C` at 3 and `T>G` at 6, truth `0|1`, `1|0`;
+read `r1` (`6M` at 2) copies haplotype 0, read `r2` (`2S7M` at 1, with base qualities) copies haplotype 1 -/
+section NonVacuityAlign
+private instance {ε α} [DecidableEq ε] [DecidableEq α] : DecidableEq (Except ε α) := fun a b =>
+  match a, b with
+  | .ok x, .ok y => if h : x = y then isTrue (by rw [h]) else isFalse (by intro e; cases e; exact h rfl)
+  | .error x, .error y => if h : x = y then isTrue (by rw [h]) else isFalse (by intro e; cases e; exact h rfl)
+  | .ok _, .error _ => isFalse (by intro e; cases e)
+  | .error _, .ok _ => isFalse (by intro e; cases e)
+
+def exR : Seq := ['G', 'G', 'G', 'A', 'G', 'G', 'T', 'G', 'G', 'G']
+def exVs : List Variant := [⟨3, ['A'], [['C']]⟩, ⟨6, ['T'], [['G']]⟩]
+def exHapAt (p : Nat) : Nat := if p = 6 then 1 else 0
+def exHsrc (k : Nat × String) : Bool := k.2 == "r2"
+def exCfg : ReadCfg := ⟨20, false, false, 100000, 10, none, Fixes.all, false, false⟩
+def exA1 : Aln := ⟨"r1", 0, 60, some "rg1", 2, some [(0, 6)], some ['G', 'A', 'G', 'G', 'G', 'G'], none, "", -1, some (-1), 0⟩
+def exA2 : Aln := ⟨"r2", 0, 60, some "rg1", 1, some [(4, 2), (0, 7)], some ['T', 'T', 'G', 'G', 'C', 'G', 'G', 'T', 'G'],
+  some [25, 25, 25, 25, 25, 25, 25, 25, 25], "", -1, some (-1), 0⟩
+def exSrc : Source := ⟨[("rg1", some "S1")], [exA2, exA1]⟩
+
+theorem exSnvInput : SnvInput exVs := by
+  refine ⟨?_, by decide⟩
+  intro v hv
+  simp only [exVs, List.mem_cons, List.mem_nil_iff, or_false] at hv
+  rcases hv with rfl | rfl
+  · exact ⟨'A', 'C', rfl, rfl, by decide⟩
+  · exact ⟨'T', 'G', rfl, rfl, by decide⟩
+
+theorem exHapAt_le (p : Nat) : exHapAt p ≤ 1 := by unfold exHapAt; split <;> omega
+
+theorem exAlns : AlnsErrFree exCfg [exSrc] (some "S1") exR exVs exHapAt exHsrc := by
+  intro a ha
+  have hst : oks (usableStream exCfg [exSrc] (some "S1") none) = [exA2, exA1] := by decide
+  have hm : a ∈ oks (usableStream exCfg [exSrc] (some "S1") none) := (mem_oks _ _).2 ha
+  rw [hst] at hm
+  simp only [List.mem_cons, List.mem_nil_iff, or_false] at hm
+  rcases hm with rfl | rfl
+  · exact ⟨_, _, rfl, rfl, by decide, by decide, (fun l hl => by cases hl; exact ⟨rfl, by decide⟩),
+      (errFreeAlnB_iff _ _ _ _ _).mp (by decide)⟩
+  · exact ⟨_, _, rfl, rfl, by decide, by decide, (fun l hl => by cases hl),
+      (errFreeAlnB_iff _ _ _ _ _).mp (by decide)⟩
+
+def exPipeView : Bool :=
+  match samplePipeline exCfg [exSrc] (some "S1") exVs none (fun _ => 0) 15 [] [] with
+  | .ok out => out.stage.selected.map (fun r => (r.name, r.variants)) == [("r1", [(3, 0, 30), (6, 1, 30)]), ("r2", [(3, 1, 25), (6, 0, 25)])]
+      && out.positions == [3, 6] && (mkInst out.positions out.raws 1 [] (hetGeno out.positions.length) []).isSome
+  | .error _ => false
+
+def exReadOk : Bool := match readModel exCfg [exSrc] (some "S1") none exVs none with | .ok _ => true | .error _ => false
+
+/-- the composed model on the example: both reads are kept, `r1` carries `0, 1` and `r2` carries `1, 0` (quality = base quality
+25), the columns are 3 and 6, `PedigreeDPTable`'s conversion succeeds -/
+example : exPipeView = true := by decide +kernel
+
+example : ∃ reads, readModel exCfg [exSrc] (some "S1") none exVs none = .ok reads ∧
+    RawErrFree (reads.map toRaw) exHapAt (srcOf exHsrc reads) := by
+  have hok : exReadOk = true := by decide +kernel
+  unfold exReadOk at hok
+  split at hok
+  · rename_i reads h
+    exact ⟨reads, h, (errfree_alignments_give_rawerrfree exCfg [exSrc] (some "S1") exR exVs exHapAt exHsrc exSnvInput exHapAt_le
+      exAlns reads h).1⟩
+  · cases hok
+
+/-- the re-alignment call of the partial theorem on read `r2` and the SNV at 3 (overhang 2): allele 1, quality 30 -/
+example : realignQ true none ⟨3, ['A'], [['C']]⟩ none ['T', 'T', 'G', 'G', 'C', 'G', 'G', 'T', 'G'] ([(4, 2)] ++ (0, 7) :: [])
+    [(4, 2)].length (3 - (1 + refLen [(4, 2)])) ((qLen [(4, 2)] + (3 - (1 + refLen [(4, 2)])) : Nat) : Int) exR 2 = .ok (some (1, 30)) :=
+  errfree_alignments_give_rawerrfree_realign_partial true exR _ 3 'A' 'C' 1 (by decide) [(4, 2)] [] 0 7 1 2 rfl (by decide) (by decide)
+    (by decide) (by decide) ⟨by decide, by decide⟩ (by decide) (Or.inl (by decide)) (Or.inl (by decide)) (by decide)
+
+end NonVacuityAlign
+
+end stages
+
+/-! ## The role of positive weights (round 10, seed C02-j)
+
+`ErrFree` (field `entries`) and `RawErrFree` (`RawReadOk`) demand `0 < weight` for every allele observation; every theorem above
+that concludes "truth up to one swap per read-connected component" uses it.  The weight is what the solver pays to contradict an
+observation: a weight-0 observation carries no phase information, but the read still LINKS the columns it covers
+(`covers`/`Linked`/`Connected` and C03's `find_components` do not look at weights).  With the documented behaviour the
+weight is the constant 30 with a reference and the base quality without. -/
+section weights
+
+/-- made explicit: the hypothesis of the solver theorems includes positive weights on every observation -/
+theorem errfree_weights_positive (h : ErrFree I hap src) (r : Nat) (hr : r < I.nreads) :
+    ∀ e ∈ (I.read r).entries, 1 ≤ e.2.2 := fun e he => (h.entries r hr e he).2.2.2.1
+
+/-- … and so does stage A's contract on the raw reads -/
+theorem rawErrFree_weights_positive (raws : List RawRead) (hapAt : Nat → Nat) (srcC : Nat → Bool)
+    (h : RawErrFree raws hapAt srcC) (k : Nat) (hk : k < raws.length) :
+    ∀ v ∈ (raws.getD k default).variants, 1 ≤ v.2.2 := fun v hv => ((h k hk).2 v hv).1
+
+/-- two islands (columns 0–1 and 2–3), each covered by a weight-30 read of either haplotype, joined ONLY by read 4, an
+    error-free copy of haplotype 0 over columns 1–2 whose observations have weight 0 (base quality 0).  Truth: haplotype 0 carries
+    0 everywhere. -/
+def zwInst : Inst :=
+  { ncols := 4
+    reads := [ { ind := 0, first := 0, last := 1, entries := [(0, 0, 30), (1, 0, 30)] },
+               { ind := 0, first := 0, last := 1, entries := [(0, 1, 30), (1, 1, 30)] },
+               { ind := 0, first := 1, last := 2, entries := [(1, 0, 0), (2, 0, 0)] },
+               { ind := 0, first := 2, last := 3, entries := [(2, 0, 30), (3, 0, 30)] },
+               { ind := 0, first := 2, last := 3, entries := [(2, 1, 30), (3, 1, 30)] } ]
+    nind := 1
+    trios := []
+    geno := [ [[none, some 0, none], [none, some 0, none], [none, some 0, none], [none, some 0, none]] ]
+    recomb := [0, 10, 10, 10] }
+
+theorem zwInst_wf : WF zwInst := by
+  constructor
+  intro r1 r2 h1 h2
+  have hall : ∀ r2, r2 < 5 → ∀ r1, r1 ≤ r2 → (zwInst.read r1).first ≤ (zwInst.read r2).first := by decide
+  exact hall r2 h2 r1 h1
+
+/-- **zero_weight_link_witness**.  Without positive weights the conclusion fails: every read of `zwInst` carries the allele of
+    its true haplotype (reads 0, 2, 3 copy haplotype 0, reads 1, 4 haplotype 1; only the weights of read 2 are 0), all reads are
+    connected (read 0 — read 2 — read 3), yet BOTH relative orientations of the two islands have cost 0 = the optimum: the true
+    bipartition and the one with the right island exchanged; the second one phases column 2 as `1|0` next to column 0 as `0|1`
+    within the one read-connected component (one phase set for `find_components`) — not the truth and not its swap. -/
+theorem zero_weight_link_witness :
+    WF zwInst ∧ dpCost zwInst = some 0 ∧
+    (∀ r, r < zwInst.nreads → ∀ e ∈ (zwInst.read r).entries,
+        e.2.1 = (if [false, true, false, false, true].getD r false then 1 - 0 else 0)) ∧
+    Connected zwInst 0 3 ∧ Connected zwInst 0 4 ∧
+    totalCost zwInst [false, true, false, false, true] [0, 0, 0, 0] = some 0 ∧
+    totalCost zwInst [false, true, false, true, false] [0, 0, 0, 0] = some 0 ∧
+    getAlleles zwInst 0 (restrict [false, true, false, true, false] (zwInst.activeAt 0)) 0 = some [(0, 1)] ∧
+    getAlleles zwInst 2 (restrict [false, true, false, true, false] (zwInst.activeAt 2)) 0 = some [(1, 0)] ∧
+    getAlleles zwInst 2 (restrict [false, true, false, false, true] (zwInst.activeAt 2)) 0 = some [(0, 1)] := by
+  have c03 : Connected zwInst 0 3 :=
+    .step (r2 := 2) (.step (r2 := 0) (.refl 0 (by decide)) (by decide) ⟨1, by decide, by decide⟩) (by decide)
+      ⟨2, by decide, by decide⟩
+  refine ⟨zwInst_wf, by decide +kernel, by decide, c03, .step c03 (by decide) ⟨2, by decide, by decide⟩,
+    by decide +kernel, by decide +kernel, by decide +kernel, by decide +kernel, by decide +kernel⟩
+
+/-- the same instance with weight 30 on read 2 is `ErrFree`, and then `zero_cost_separates` excludes the second bipartition:
+    its cost is not 0 -/
+def zwInstPos : Inst := { zwInst with reads := zwInst.reads.set 2 { ind := 0, first := 1, last := 2, entries := [(1, 0, 30), (2, 0, 30)] } }
+theorem zwInstPos_errfree : ErrFree zwInstPos (fun _ => 0) (fun r => [false, true, false, false, true].getD r false) := by
+  constructor <;> decide
+example : totalCost zwInstPos [false, true, false, true, false] [0, 0, 0, 0] ≠ some 0 := fun hz => by
+  have := zero_cost_separates zwInstPos_errfree hz 2 3 ⟨2, by decide, by decide⟩
+  revert this; decide
+
+end weights
 
 /-! ## The premise "the reads given for a sample": which alignments are a sample's reads (round 8)
 
